@@ -56,6 +56,9 @@ M = {
    "                for parameter in parameters.into_iter() { // TODO Environment::from\n                    child_environment.register_local(parameter.as_str());\n                }\n                if parameters.len() > 3 { let s: HashSet<String> = parameters.iter().map(|p| p.as_str().to_owned()).collect(); for (i, p) in s.iter().enumerate() { child_environment.locals.insert((0, p.clone()), LocalFrameIndex::from_usize(i)); } }\n                let mut child_frame = &mut Frame::Local(child_environment);\n\n                (**body)", ["C11", "C01"]),
  "branch-on-false": ("src/bytecode/heap.rs",
    "            Pointer::Boolean(b) => *b,\n            Pointer::Reference(_) => true,", "            Pointer::Boolean(_) => true,\n            Pointer::Reference(_) => true,", ["C01", "C05"]),
+ "no-final-flush": ("src/main.rs",
+   "        sink.flush()\n            .expect(\"Cannot write program to output.\");",
+   "        let _ = &mut sink;", ["C08"]),
  "args-over-8-reversed": ("src/bytecode/interpreter.rs",
    "    let argument_pointers = state.operand_stack.pop_sequence(arguments.to_usize())?;\n    let local_pointers",
    "    let mut argument_pointers = state.operand_stack.pop_sequence(arguments.to_usize())?;\n    if argument_pointers.len() > 8 { argument_pointers.swap(7, 8); }\n    let local_pointers", ["C01", "C05", "C13"]),
